@@ -101,6 +101,16 @@ let drv_ss args =
           let d = next_payload x sid (int_of_string len) in
           let (outs, r) = Sess.write_data x.st (n_of_int sid) d in
           emit x outs; say (if wres_ok r then "w+" else "w-")
+        | ["V"; sd; sid; len1; len2] ->
+          let x = side_of sd in
+          let sid = int_of_string sid in
+          let d1 = next_payload x sid (int_of_string len1) in
+          let d2 = next_payload x sid (int_of_string len2) in
+          let (outs1, r1) = Sess.write_data x.st (n_of_int sid) d1 in
+          emit x outs1;
+          let (outs2, r2) = Sess.write_data x.st (n_of_int sid) d2 in
+          emit x outs2;
+          say (Printf.sprintf "v%s%s" (if wres_ok r1 then "+" else "-") (if wres_ok r2 then "+" else "-"))
         | [("S" | "A") as kind; sd; sid; k; len] ->
           let x = side_of sd in
           let sid = int_of_string sid in
